@@ -19,6 +19,7 @@ const (
 	EngineValid   Verdict = iota // (true, nil)
 	EngineInvalid                // (false, nil)
 	EngineError                  // (false, ErrEngine)
+	EngineErrorTrue              // (true, ErrEngine): an error reported together with a positive verdict; the error decides
 )
 
 // ErrEngine is the error a scripted EngineError answer returns.
@@ -124,6 +125,8 @@ func (e *MockEngine) answer(ctx context.Context, c EngineCall) (bool, error) {
 		return true, nil
 	case EngineInvalid:
 		return false, nil
+	case EngineErrorTrue:
+		return true, ErrEngine
 	default:
 		return false, ErrEngine
 	}
